@@ -87,7 +87,7 @@ def run(ctx: Ctx):
     # acceptance as in C13): a concrete accepted deviation is a violation; otherwise the clause is undecided.
     from ..common import Ctx as _Ctx, AnalysisError as _AE
     from . import c12 as _c12, c13 as _c13
-    bypass = [(k, r) for k, r in im.hooks.class_hooks().items() if not (k == NONE or k[0] in ("opaque", "prim"))]
+    bypass = [(k, r) for k, r in im.hooks.class_hooks_effective().items() if not (k == NONE or k[0] in ("opaque", "prim"))]
     if not bypass:
         ctx.ok("class-hooks-keep-rejections", {"class_keyed_hooks": 0})
     else:
